@@ -52,6 +52,17 @@ def config_new(quick):
     return c
 
 
+def config_reg(quick):
+    """The level registry is part of the routing state: levels are registered with / without the error device
+    (or refused) in the middle of a history, AFTER records of that severity were routed already."""
+    regs = [dict(v=20, e=True), dict(v=20), dict(v=21, e=True, clash=True), dict(v=21, t=2), dict(v=-9, e=True, t=4)]
+    return dict(init_level=5, names=[], bool_lists=[[]], layouts=[""], opt_lists=[[]], probe_sevs=[4, 2, 20, 21, -9, 17],
+                customs=[], reg_calls=regs, wants_level=WANTS, max_list=1, max_loggers=1,
+                setter_args={"Writer": [(1, 0)], "ErrorWriter": [(4, 0)]} if quick else
+                {"Writer": [(1, 0)], "ErrorWriter": [(4, 0)], "AddLevelWriter": [(3, 20)], "ResetWriters": [(0, 0)]},
+                acts=["Set", "Register"], wlevels=[] if quick else [20])
+
+
 def rand_config(c):
     r = dict(c)
     ws = [1, 2, 3, 4, 5, 8, 0]
@@ -93,6 +104,8 @@ def run(ctx, replay):
                      rand_loggers=4 if ctx.quick() else 8, rand_cfg=rc, key_fn=explain, tag="set")
     corelib.run_core(ctx, config_new(ctx.quick()), invariants=["RouteOK", "TreeOK"], properties=["Isolation"], obs=OBS,
                      rand_count=0, rand_depth=0, rand_loggers=3, key_fn=explain, tag="new")
+    corelib.run_core(ctx, config_reg(ctx.quick()), invariants=["RouteOK", "TreeOK"], properties=["Isolation", "RegistryLocal"], obs=OBS,
+                     rand_count=10 if ctx.quick() else 200, rand_depth=8 if ctx.quick() else 14, rand_loggers=1, key_fn=explain, tag="reg")
     ctx.assumptions += ["destinations are compared as bags: the order of Write calls across destinations is not part of the property",
                         "removal of a writer that is in the list twice may remove one or all occurrences (statement silent)",
                         "fd 1/2 of the worker process are files: the stdout/stderr fallback is observed for real"]
